@@ -650,13 +650,88 @@ def callee_path_of(term):
     return mir.callee_path(term["f"])
 
 
+def _discr_key(body, sb):
+    """identity of what a switch block discriminates: (root local, projection) of the place whose discriminant is read,
+    resolved through one `&place` borrow, provided every local involved is defined once (so the value cannot differ
+    between two tests). None if the switch is not a plain discriminant test."""
+    t = body.blocks[sb]["t"]
+    if t["k"] != "switch":
+        return None
+    op = t.get("o") or t.get("d") or {}
+    if not (isinstance(op, dict) and "p" in op and "p" not in op["p"]):
+        return None
+    l = op["p"]["l"]
+    src = None
+    for s_ in body.blocks[sb]["s"]:
+        if s_["k"] == "as" and s_["p"]["l"] == l and "p" not in s_["p"] and s_["rv"]["r"] == "discr":
+            src = s_["rv"]["p"]
+    if src is None:
+        return None
+    root, proj = src["l"], list(src.get("p", ()))
+    defs = body.defs()
+    for _ in range(3):
+        if proj and proj[0] == "*" and len(defs.get(root, ())) == 1:
+            d = defs[root][0]
+            if d[0] == "s":
+                st = body.blocks[d[1]]["s"][d[2]]
+                if st["rv"]["r"] == "ref" and not st["rv"].get("mut"):
+                    q = st["rv"]["p"]
+                    root, proj = q["l"], list(q.get("p", ())) + proj[1:]
+                    continue
+        break
+    if len(defs.get(root, ())) > 1:
+        return None
+    return (root, json.dumps(proj, sort_keys=True))
+
+
+def contradicting_edges(body, bi):
+    """switch edges elsewhere in the body that contradict a condition under which block bi is reached: for every
+    discriminant test that dominates bi and reaches it through exactly one of its edges (place P, variant M), all edges
+    of OTHER tests of the same place P whose variant differs from M."""
+    known = []
+    keys = {}
+    for sb in range(len(body.blocks)):
+        if sb in body.cleanup or body.blocks[sb]["t"]["k"] != "switch":
+            continue
+        k = _discr_key(body, sb)
+        if k is not None:
+            keys[sb] = k
+    for sb, k in keys.items():
+        if sb == bi or not must_pass(body, bi, [sb]):
+            continue
+        term, outs = body.switch_info(sb)
+        via = [(tgt, m) for tgt, _, m in outs if bi in body.reachable([tgt], cut_edges=body.back_edges())]
+        if len(via) == 1:
+            known.append((sb, k, via[0][1]))
+    cut = set()
+    for sb, k in keys.items():
+        term, outs = body.switch_info(sb)
+        for ksb, kk, km in known:
+            if sb != ksb and k == kk:
+                for tgt, _, m in outs:
+                    if m != km:
+                        cut.add((sb, tgt))
+    return cut
+
+
 def held_locks_at(body, site_bi):
     """names of lock fields whose guard is provably held at the site on every path:
     the acquisition dominates the site (for try_*: via its Some/Ok edge) and the guard is live."""
     held = []
     for bi, t, f, m in lock_calls(body):
         if not must_pass(body, site_bi, [bi]):
-            continue
+            # the acquisition may sit under `if let Some(x) = &opt` and the site under a second test of the same
+            # `opt` (`match &opt { Some(x) if .. => site }`): plain domination fails on the infeasible path
+            # None-then-Some. Cut the edges that contradict what is known where the lock is taken.
+            term_key = {}
+            for sb in range(len(body.blocks)):
+                if sb not in body.cleanup and body.blocks[sb]["t"]["k"] == "switch":
+                    k = _discr_key(body, sb)
+                    if k is not None:
+                        term_key[body.switch_info(sb)[0]] = k
+            through = {(bi, tgt) for tgt, _ in body.succ_edges(bi)}
+            if not term_key or k1_correlated(body, [site_bi], through, lambda term: term_key.get(term))[site_bi] is not None:
+                continue
         if m.startswith("try_"):
             def some_edge(term, meaning, b, sbi, tgt, bi=bi):
                 return sbi != -1 and term[0] == "discr" and meaning in ("Some", "Ok") and \
